@@ -156,6 +156,40 @@ func selftest(args []string) int {
 	expect("Trace_ShQuote accepts 'a b'", bad2, 1, false)
 	expect("Trace_ShQuote rejects the unquoted word a b", bad2, 2, true)
 	expect("Trace_ShQuote rejects an unterminated quote", bad2, 3, true)
+	// ---- Trace_Eval: the recorded handler steps of one real evaluation, then the same with one corrupted result
+	yqlib.InitExpressionParser()
+	ast := M{"op": "PIPE", "l": M{"op": "TRAVERSE_PATH", "key": []interface{}{"a"}}, "r": M{"op": "LENGTH"}}
+	doc := &AV{K: "map", MK: []string{"a"}, MV: []*AV{{K: "seq", E: []*AV{{K: "num", Int: true, N: 1, D: 1}, {K: "num", Int: true, N: 2, D: 1}}}}}
+	steps, traced := traceOne(ast, doc, false)
+	if !traced || len(steps) < 3 {
+		fmt.Println("selftest: the handler tracer recorded", len(steps), "steps")
+		return 2
+	}
+	var nd3 strings.Builder
+	for _, st := range steps {
+		nd3.Write(st.line)
+		nd3.WriteString("\n")
+	}
+	corrupt := strings.Replace(string(steps[len(steps)-1].line), `"n":2`, `"n":3`, 1) // the final result 2 -> 3
+	nd3.WriteString(corrupt + "\n")
+	bad3 := map[int]string{}
+	_, err = RunTLC(rc, TLCOpts{Name: "selftest-eval", Module: "Trace_Eval", Extra: map[string]string{"eval_events.ndjson": nd3.String()},
+		Cfg: "CONSTANTS\n Dev = {}\n Chunk = 200\nINIT Init\nNEXT Next\nINVARIANTS Judge\nCHECK_DEADLOCK FALSE\n", Timeout: 5 * time.Minute,
+		OnLine: func(line string) {
+			var i int
+			var why string
+			if n, _ := fmt.Sscanf(line, "<<\"BAD\", %d, %q>>", &i, &why); n == 2 {
+				bad3[i] = why
+			}
+		}})
+	if err != nil {
+		fmt.Println("selftest: TLC failed:", err)
+		return 2
+	}
+	for i := 1; i <= len(steps); i++ {
+		expect(fmt.Sprintf("Trace_Eval accepts recorded step %d (%s)", i, steps[i-1].op), bad3, i, false)
+	}
+	expect("Trace_Eval rejects the last step with its result changed", bad3, len(steps)+1, true)
 	// ---- the attribute table of C05: dropping one comment / changing one style is seen
 	in, _ := extractTable("# lead\na: 'x' # lc\nb: [1, 2]\n")
 	out1, _ := extractTable("# lead\na: 'x' # lc\nb: [1, 2]\n")
